@@ -322,6 +322,33 @@ def st_iter_abs_suspended(ctx, s):
     g.close()
 
 
+def st_iter_abs_still_suspended(ctx, s):
+    # edit, read the other view, advance, edit again - and leave the generator suspended while the views are compared
+    g = s.messages_abs()
+    ctx.keep.append(g)
+    edited = 0
+    for m in g:
+        if m.message_type == ON:
+            m.velocity = 1 + (m.velocity % 127)
+            edited += 1
+            if edited == 2:
+                return
+            s.rel
+
+
+def st_iter_rel_still_suspended(ctx, s):
+    g = s.messages_rel()
+    ctx.keep.append(g)
+    edited = 0
+    for m in g:
+        if m.message_type == ON:
+            m.velocity = 1 + (m.velocity % 127)
+            edited += 1
+            if edited == 2:
+                return
+            s.abs
+
+
 STEPS = {k[3:]: v for k, v in list(globals().items()) if k.startswith("st_")}
 
 
@@ -341,6 +368,7 @@ def q_step(step, content, wmax):
         if content != "ill":
             ctx.assume(distinct_keys_or_disjoint(ctx, b.notes))
         ctx.args = mkargs(ctx)
+        ctx.keep = []                # generators a step leaves suspended stay alive until the views were compared
         posts = []
         excs = []
         extras = []
@@ -407,6 +435,7 @@ def q_two_steps(s1, s2, content, wmax):
         b = build_rel(ctx, spec, pitch=(60, 61), chan=(0, 0), wait=(1, wmax))
         ctx.assume(distinct_keys_or_disjoint(ctx, b.notes))
         ctx.args = mkargs(ctx)
+        ctx.keep = []
         posts, excs = [], []
         for fr in ("rel", "abs", "both_from_rel"):
             s = make_state(b, spec, fr)
@@ -446,6 +475,8 @@ def queries(tier, seed):
             qs.append(q_step(st, c, w))
         if tier == "quick" and not heavy:
             qs.append(q_step(st, "n2", 6))
+        if tier == "quick" and st == "cutoff":
+            qs.append(q_step(st, "n2", 4))       # a shortened note whose new end lands before events inside it
     if tier == "thorough":
         gens = [k for k in STEPS if k.startswith("iter_")]
         seen2 = set()
